@@ -143,6 +143,28 @@ def run(tier):
         nsweep += 1
     check.cov["sweep_inputs"] = nsweep
     vers_all = ["5.0", "5.6", "7.0", "7.2", "7.3", "7.4"]
+    ncrash = 0
+
+    def judge(tasks):
+        nonlocal ncrash
+        res = wp.run([{k: v for k, v in t.items() if k != "_o"} for t in tasks])
+        for t, r in zip(tasks, res):
+            check.count()
+            src = t["src"].encode("latin-1")
+            if r.get("hang"):
+                ncrash += 1
+                check.violation({"class": "hang", "family": family(src, t["ver"])},
+                                {"src": t["src"], "ver": t["ver"], "nocb": t["nocb"], "origin": t["_o"], "observed": r})
+            elif r.get("panic") or r.get("crash"):
+                ncrash += 1
+                check.violation({"class": "panic", "site": r.get("site") or "runtime-fatal", "family": family(src, t["ver"])},
+                                {"src": t["src"], "ver": t["ver"], "nocb": t["nocb"], "origin": t["_o"], "observed": r})
+            else:
+                for f in r.get("fails") or []:
+                    if f["c"] == "C01.mutated":
+                        check.violation({"class": "input-mutated"}, {"src": t["src"], "ver": t["ver"]})
+
+    # (tasks and results are built and dropped batch by batch: all of them at once needed more than 30 GB in the thorough tier)
     tasks = []
     for i, (s, origin) in enumerate(srcs.items()):
         text = s.decode("latin-1")
@@ -158,25 +180,12 @@ def run(tier):
             combos.append(("nil", i % 2 == 0))        # an omitted version means 7.4: the default path of parser.Parse
         for ver, nocb in dict.fromkeys(combos):
             tasks.append({"op": "analyze", "src": text, "ver": ver, "nocb": nocb, "limit_ms": 2000 + len(s) // 20, "_o": origin})
-    res = wp.run([{k: v for k, v in t.items() if k != "_o"} for t in tasks])
-    ncrash = 0
-    for t, r in zip(tasks, res):
-        check.count()
-        check.distinct(t["src"])
-        src = t["src"].encode("latin-1")
-        fam = "php5" if t["ver"].startswith("5") else "php7"
-        if r.get("hang"):
-            ncrash += 1
-            check.violation({"class": "hang", "family": family(src, t["ver"])},
-                            {"src": t["src"], "ver": t["ver"], "nocb": t["nocb"], "origin": t["_o"], "observed": r})
-        elif r.get("panic") or r.get("crash"):
-            ncrash += 1
-            check.violation({"class": "panic", "site": r.get("site") or "runtime-fatal", "family": family(src, t["ver"])},
-                            {"src": t["src"], "ver": t["ver"], "nocb": t["nocb"], "origin": t["_o"], "observed": r})
-        else:
-            for f in r.get("fails") or []:
-                if f["c"] == "C01.mutated":
-                    check.violation({"class": "input-mutated"}, {"src": t["src"], "ver": t["ver"]})
+        if len(tasks) >= 400000:
+            judge(tasks)
+            tasks = []
+    if tasks:
+        judge(tasks)
+    check.cov["distinct_nontrivial"] = len(srcs)
     check.cov["inputs"] = len(srcs)
     check.cov["worker_restarts"] = wp.restarts
     check.cov["traces_validated_against_impl"] = len(lc)
